@@ -226,6 +226,11 @@ func ext۰strconv۰Itoa(fr *frame, args []value) value {
 	return strconv.Itoa(args[0].(int))
 }
 func ext۰strconv۰FormatFloat(fr *frame, args []value) value {
+	if f, ok := args[0].(symF64); ok {
+		st := fr.i.newSymStr("strconv.FormatFloat")
+		st.kind, st.t = "f64", f.t
+		return st
+	}
 	return strconv.FormatFloat(args[0].(float64), args[1].(byte), args[2].(int), args[3].(int))
 }
 
